@@ -71,4 +71,30 @@ def queueNext : Unit → K (List (Either φ α) × List α) (Either φ α) :=
 def queueBody : α → K (List (Either φ α) × List α) Unit :=
   fun a st => (.ok (), (st.1, st.2 ++ [a]))
 
+/-- an output stream that appends what is written to it -/
+def streamPut : Char → K String Unit := fun c st => (.ok (), st.push c)
+def streamPutVal (sh : α → String) : α → K String Unit := fun v st => (.ok (), st ++ sh v)
+
+/-- `sequence_error` on the results the function returns: the first failure in order, or success -/
+def firstError : List (Either φ Unit) → Either φ Unit
+  | [] => .success ()
+  | .failure f :: _ => .failure f
+  | .success _ :: r => firstError r
+
+/-- what `variant::dynamic_cast_` documents: the casts are tried in order, the first one that succeeds is the result
+(with the position of its type in the list); no cast after it is tried -/
+def tryCasts {ρ : Type} : Nat → List (Unit → K σ (Option ρ)) → K σ (Option (Nat × ρ))
+  | _, [] => pure none
+  | k, c :: cs => do
+    let r ← c ()
+    match r with
+    | some ref => pure (some (k, ref))
+    | none => tryCasts (k + 1) cs
+
+/-- the first set entry of a list with its position -/
+def firstSome {ρ : Type} : Nat → List (Option ρ) → Option (Nat × ρ)
+  | _, [] => none
+  | k, some r :: _ => some (k, r)
+  | k, none :: l => firstSome (k + 1) l
+
 end Fcppt.C04.Spec
